@@ -228,7 +228,7 @@ package openflow13
 //@   ensures[C13 C02] b.Length == uint16(size(b))
 //@   modifies b.Length
 //@   loop 1:
-//@     invariant err == nil && len(data) == 16 + sum(b.Actions, #k) && len(data) % 8 == 0 && be16(data, 0) == b.Length
+//@     invariant err == nil && len(data) == 16 + sum(b.Actions, #k) && be16(data, 0) == b.Length
 
 //@ spec size(p *PhyPort) = 42 + len(p.HWAddr) + len(p.Name)
 //@ spec wf(p *PhyPort) = len(p.HWAddr) == 6 && len(p.Name) == 16 && len(p.pad) <= 4 && len(p.pad2) <= 2
